@@ -138,8 +138,8 @@ func (x *ctx) callStatic(st *state, fr *frame, callee *ssa.Function, bind []val,
 		return outs
 	}
 	if con := x.w.contracts[key]; con != nil && callee.Parent() == nil && !(x.spec > 0 && con.Flags["inline"]) &&
-		!(x.con != nil && x.con.Flags["bodies"] && con.Flags["assumed"] && con.PkgPath == x.con.PkgPath) {
-		// (a `bodies` harness executes the real code of its own package instead of the assumed contracts)
+		!(x.con != nil && x.con.Flags["bodies"] && con.PkgPath == x.con.PkgPath) {
+		// (a `bodies` harness executes the real code of its own package instead of the contracts)
 		if x.spec > 0 && !con.Flags["pure"] {
 			// real functions called from specifications are inlined (they must be side-effect free)
 			return x.inline(st, fr, callee, bind, args)
@@ -338,6 +338,13 @@ func (x *ctx) ghostWrite(st *state, name string, args []term, v term) {
 	x.declare(n, ghostSort(hi))
 	st.define(fmt.Sprintf("(= %s %s)", n, nt))
 	st.heap[key] = n
+	if len(args) == 1 {
+		if x.lastStore == nil {
+			x.lastStore = map[string][2]term{}
+		}
+		x.lastStore[n] = [2]term{args[0], v}
+		x.lastStoreOf[v.s] = n
+	}
 }
 
 func (x *ctx) ghostGet(st *state, name string, ks []srtT, elem srtT, args []term) term {
@@ -354,6 +361,12 @@ func (x *ctx) ghostGet(st *state, name string, ks []srtT, elem srtT, args []term
 		x.hinfo[key] = hi
 	}
 	t := x.ghostArr(st, name, hi)
+	if len(args) == 1 {
+		// store forwarding: reading the location that this array version was created by writing
+		if ls, ok := x.lastStore[t]; ok && ls[0].s == args[0].s && ls[1].srt.name == hi.elem.name {
+			return ls[1]
+		}
+	}
 	for _, a := range args {
 		t = fmt.Sprintf("(select %s %s)", t, a.s)
 	}
@@ -843,6 +856,7 @@ func (x *ctx) contractCall(st *state, fr *frame, con *Contract, callee *ssa.Func
 	}
 	// lp(...) / lpend(...) in the callee's postconditions denote instants inside the call: they are evaluated in
 	// independent unknown intermediate states (the callee's footprint havocked again), never in the post-call state
+	retSub := ""
 	var mid1, mid2 *state
 	midState := func() *state {
 		m := st.clone()
@@ -872,6 +886,24 @@ func (x *ctx) contractCall(st *state, fr *frame, con *Contract, callee *ssa.Func
 			} else {
 				st.assume(r.t.s)
 			}
+			if a, b, ok := splitEq(r.t.s); ok {
+				// an ensures that pins the fresh result (`result == E`) or a freshly havocked location (`ghost_f(x) == v`)
+				// to a term: later reads use that term directly (same meaning, decidable by the syntactic pruning)
+				if ret.t.s != "" && !ret.agg {
+					if a == ret.t.s && !strings.Contains(b, ret.t.s) {
+						retSub = b
+					} else if b == ret.t.s && !strings.Contains(a, ret.t.s) {
+						retSub = a
+					}
+				}
+				for _, pr := range [][2]string{{a, b}, {b, a}} {
+					if ver, isFresh := x.lastStoreOf[pr[0]]; isFresh && strings.HasPrefix(pr[0], "mod_") && !strings.Contains(pr[1], pr[0]) {
+						if ls, have := x.lastStore[ver]; have && ls[1].s == pr[0] {
+							x.lastStore[ver] = [2]term{ls[0], {pr[1], ls[1].srt}}
+						}
+					}
+				}
+			}
 			continue
 		}
 		if mid1 == nil {
@@ -898,6 +930,63 @@ func (x *ctx) contractCall(st *state, fr *frame, con *Contract, callee *ssa.Func
 			st.define(r.t.s) // inside a specification the callee is pure: its ensures only describe the fresh result
 		} else {
 			st.assume(r.t.s)
+		}
+	}
+	if retSub != "" && ret.t.s != "" {
+		ret.t = term{retSub, ret.t.srt}
+	}
+	// postconditions over the callee's skolem variables hold for every value of them: besides the shared skolem
+	// constant they are instantiated at the parameters of the function under verification that have the same type
+	if x.spec == 0 && len(con.Vars) > 0 && x.fn != nil {
+		for _, p := range pends {
+			if strings.Contains(p.cl.Expr, "lp(") || strings.Contains(p.cl.Expr, "lpend(") {
+				continue
+			}
+			vars := skolemVarsOf(con, p.cl.Expr)
+			if len(vars) == 0 {
+				continue
+			}
+			cf := x.synth(con, p.cl.FnName)
+			for _, v := range vars {
+				var vt types.Type
+				for i, pn := range p.cl.P1 {
+					if pn == v && i < len(cf.Params) {
+						vt = cf.Params[i].Type()
+					}
+				}
+				if vt == nil {
+					continue
+				}
+				for _, fp := range x.fn.Params {
+					pv, ok := fr.regs[fp]
+					if !ok || fr.fn != x.fn {
+						pv, ok = x.params[fp.Name()]
+					}
+					if !ok || pv.t.s == "" || types.TypeString(fp.Type(), nil) != types.TypeString(vt, nil) {
+						continue
+					}
+					save := x.skolemOv
+					x.skolemOv = map[string]val{v: pv}
+					pc := pre.clone()
+					n0 := len(pc.pc)
+					l1 := x.clauseL1(pc, con, p.cl, env)
+					for _, f := range pc.pc[n0:] {
+						if f.def {
+							st.define(f.t)
+						}
+					}
+					for id, cv := range pc.cells {
+						if _, have := st.cells[id]; !have {
+							st.cells[id] = cv
+						}
+					}
+					l2 := x.applyClosure(st, l1, nil, env)
+					l3 := x.applyClosure(st, l2, nil, env)
+					r := x.applyClosure(st, l3, p.cl.P3, renv)
+					x.skolemOv = save
+					st.assume(r.t.s)
+				}
+			}
 		}
 	}
 	for name, spec := range con.Cbs {
@@ -1575,6 +1664,9 @@ func (x *ctx) localByName(st *state, fr *frame, at *ssa.BasicBlock, name string)
 				if obj == nil || obj.Name() != name {
 					continue
 				}
+				if v, isVar := obj.(*types.Var); isVar && v.IsField() {
+					continue // a field selector (p.probation), not the local variable of that name
+				}
 				if _, bound := fr.regs[d.X]; !bound {
 					if _, isC := d.X.(*ssa.Const); !isC {
 						continue
@@ -2152,6 +2244,9 @@ func (x *ctx) localAnywhere(st *state, of *frame, name string) (val, bool) {
 				if obj == nil || obj.Name() != name {
 					continue
 				}
+				if v, isVar := obj.(*types.Var); isVar && v.IsField() {
+					continue // a field selector (p.probation), not the local variable of that name
+				}
 				if _, bound := of.regs[d.X]; !bound {
 					if _, isC := d.X.(*ssa.Const); !isC {
 						continue
@@ -2719,4 +2814,94 @@ func hasFuncParam(fn *ssa.Function) bool {
 		}
 	}
 	return false
+}
+
+// splitEq splits "(= A B)" into its two top-level arguments.
+func splitEq(t string) (string, string, bool) {
+	if !strings.HasPrefix(t, "(= ") || !strings.HasSuffix(t, ")") {
+		return "", "", false
+	}
+	body := t[3 : len(t)-1]
+	depth := 0
+	for i := 0; i < len(body); i++ {
+		switch body[i] {
+		case '(':
+			depth++
+		case ')':
+			depth--
+		case ' ':
+			if depth == 0 {
+				a, b := body[:i], body[i+1:]
+				if !balanced(a) || !balanced(b) || strings.ContainsAny(b[:1], " ") {
+					return "", "", false
+				}
+				// exactly two arguments
+				d2 := 0
+				for j := 0; j < len(b); j++ {
+					switch b[j] {
+					case '(':
+						d2++
+					case ')':
+						d2--
+					case ' ':
+						if d2 == 0 {
+							return "", "", false
+						}
+					}
+				}
+				return a, b, true
+			}
+		}
+	}
+	return "", "", false
+}
+
+// siteAssumes applies the `site NAME: assume` clauses after a call of NAME (the local that receives the result is bound).
+func (x *ctx) siteAssumes(st *state, fr *frame, b *ssa.BasicBlock, in *ssa.Call) {
+	c := in.Common()
+	name := ""
+	switch {
+	case c.IsInvoke():
+		name = c.Method.Name()
+	case c.StaticCallee() != nil:
+		name = c.StaticCallee().Name()
+	default:
+		name = sourceName(c.Value)
+	}
+	if j := strings.Index(name, "["); j > 0 {
+		name = name[:j]
+	}
+	cls := x.con.SiteAssumes[name]
+	if len(cls) == 0 {
+		return
+	}
+	if x.siteHit == nil {
+		x.siteHit = map[string]bool{}
+	}
+	x.siteHit["assume:"+name] = true
+	penv := func(n string, t types.Type) (val, bool) { v, ok := x.params[n]; return v, ok }
+	lenv := func(n string, t types.Type) (val, bool) {
+		if v, ok := x.localByName(st, fr, b, n); ok {
+			return v, true
+		}
+		return penv(n, t)
+	}
+	for _, cl := range cls {
+		pc := x.pre.clone()
+		np := len(pc.pc)
+		l1 := x.clauseL1(pc, x.con, cl, penv)
+		for id, v := range pc.cells {
+			if _, ok := st.cells[id]; !ok {
+				st.cells[id] = v
+			}
+		}
+		for _, f := range pc.pc[np:] {
+			if f.def {
+				st.define(f.t)
+			}
+		}
+		g := x.applyClosure(st, l1, cl.P3, lenv)
+		x.assumed[fmt.Sprintf("assumed about the result of %s in %s [%s]: %s", name, x.con.Target, cl.Tag(), cl.Expr)] = true
+		st.assume(g.t.s)
+	}
 }
